@@ -225,6 +225,10 @@ func genC18(t *rapid.T) c18Case {
 		b.recs["-q"], b.recs["-t"] = u.Queries, u.Targets
 		if rapid.Bool().Draw(t, "queryCSV") {
 			csv, _ := udListCSV(u.Ref, u.Queries)
+			if rapid.IntRange(0, 5).Draw(t, "noQueries") == 0 {
+				// a list with its header and no rows (nothing to look up) is accepted; the other inputs must still be checked
+				csv = csv[:strings.Index(csv, "\n")+1]
+			}
 			qf = c18File{Role: "-q", Name: "q.csv", Content: csv}
 			delete(b.recs, "-q")
 		}
